@@ -32,6 +32,8 @@ let parse_op name args =
   | "storestep" -> OStoreStep (nn (a 0))
   | "completeexist" -> OCompleteExist (key_of (a 0))
   | "tmstart" -> OTmStart | "end" -> OEnd | "tm" -> OTm
+  | "insert" -> OInsert (key_of (a 0), val_of (a 1))
+  | "flushops" -> OFlushOps
   | _ -> failwith ("unknown op " ^ name)
 
 let fmt_resp name r =
@@ -44,6 +46,7 @@ let fmt_resp name r =
       (if t then "1" else "0") ^ "\t" ^ sn status ^ "\t" ^
       (match started with Some (g, b) when t -> sn g ^ ":" ^ fmt_buf b | _ -> "-")
   | RWait ok -> if ok then "ok" else "err"
+  | ROps l -> if l = [] then "-" else String.concat "," (List.map (fun (k, o) -> hexk k ^ ":" ^ sn o) l)
   | RErrExist (_, v) ->
       let x = "X:" ^ (match v with None -> "_" | Some b -> hexv b) in
       if name = "flush" then "0\t1\t-\t" ^ x else "err\t" ^ x
